@@ -12,6 +12,7 @@ Decided clauses:
 from __future__ import annotations
 
 import ast
+import re
 
 from sa.cfg import CFG
 from sa.core import AnalysisError, attr_chain, enclosing, norm, parents, resolve_callee, walk_no_nested
@@ -202,7 +203,11 @@ def r2(p, rep):
         lst = body.comparators[0].id
         appends = [n for n in walk_no_nested(g.node) if isinstance(n, ast.Call) and norm(n.func) == f"{lst}.append"]
         cfgg = CFG(g.node)
-        good = bool(appends) and all(any("KEYWORD_ONLY" in norm(t) and pol for t, pol in cfgg.guards(cfgg.node_for(a))) for a in appends)
+        # every keyword-only parameter is collected: an append under `kind is KEYWORD_ONLY`; further arms may add other
+        # parameters as options, selected by their kind (`kind is POSITIONAL_OR_KEYWORD and default is not empty and ..`)
+        kw_app = [a for a in appends if any("KEYWORD_ONLY" in norm(t) and pol for t, pol in cfgg.guards(cfgg.node_for(a)))]
+        other_app = [a for a in appends if a not in kw_app]
+        good = bool(kw_app) and all(any(re.search(r"\.kind (is|==|in) ", norm(t)) and pol for t, pol in cfgg.guards(cfgg.node_for(a))) for a in other_app)
         extra = []
         if not appends:
             # built in one go: `[name for name, param in parameters.items() if param.kind is KEYWORD_ONLY [and name not in reserved]]`
@@ -214,7 +219,7 @@ def r2(p, rep):
                 good = any("KEYWORD_ONLY" in norm(t) and pol and isinstance(t, ast.Compare) and isinstance(t.ops[0], (ast.Is, ast.Eq)) for t, pol in conds)
                 extra = [(t, pol) for t, pol in conds if "KEYWORD_ONLY" not in norm(t)]
         else:
-            for a in appends:
+            for a in kw_app:
                 extra += [(t, pol) for t, pol in cfgg.guards(cfgg.node_for(a)) if "KEYWORD_ONLY" not in norm(t) and "VAR_KEYWORD" not in norm(t) and "callable(" not in norm(t)]
         # anything else that narrows the list may only exclude names the adapter supplies itself: `name not in <parameter>`,
         # and every caller passes a literal collection of names for that parameter (a bare string would turn the
